@@ -234,6 +234,24 @@ func runC03(r *h.Run) {
 		// brokered connection plugin -> host
 		h.HostAccept(r, cmd, 501)
 		op("AskDial", 60*time.Second, true, func() (any, error) { return cmd.Do("dial", "501") })
+		// a broker accept on the host that nobody dials: must come back (listener or error)
+		op("BrokerAccept", 60*time.Second, false, func() (any, error) {
+			switch c := cmd.(type) {
+			case *plugins.RPCClient:
+				conn, err := c.Broker.Accept(502)
+				if err == nil {
+					conn.Close()
+				}
+				return nil, nil // a timeout is the expected outcome
+			case *plugins.GRPCClient:
+				ln, err := c.Broker.Accept(502)
+				if err == nil {
+					ln.Close()
+				}
+				return nil, nil
+			}
+			return nil, nil
+		})
 		// stdio
 		op("Stdio", 60*time.Second, true, func() (any, error) { return cmd.Do("stdout", "68656c6c6f0a") })
 		op("Ping", 60*time.Second, true, func() (any, error) { return nil, cproto.Ping() })
